@@ -132,11 +132,11 @@ func (p *parser) digits() []byte {
 
 // fixedDigits consumes exactly n digits and returns their value.
 func (p *parser) fixedDigits(n int, what string) (int, error) {
-	if p.pos+n > len(p.data) {
-		return 0, p.errf(len(p.data), "unexpected end of input in %s", what)
-	}
 	v := 0
 	for i := 0; i < n; i++ {
+		if p.pos+i >= len(p.data) {
+			return 0, p.errf(len(p.data), "unexpected end of input in %s", what)
+		}
 		c := p.data[p.pos+i]
 		if c < '0' || c > '9' {
 			return 0, p.errf(p.pos+i, "expected digit in %s, found %s", what, showByte(c))
